@@ -324,7 +324,7 @@ func (ts *TermStore) Bin(op Op, a, b *Term) *Term {
 			return a
 		}
 	}
-	if isCommutative(op) && a.id > b.id {
+	if isCommutative(op) && b.op != OConst && a.id > b.id {
 		a, b = b, a
 	}
 	return ts.mk(op, w, a, b, nil, 0)
@@ -396,7 +396,7 @@ func (ts *TermStore) Cmp(op Op, a, b *Term) *Term {
 				}
 			}
 		}
-		if a.id > b.id {
+		if b.op != OConst && a.id > b.id {
 			a, b = b, a
 		}
 	}
